@@ -207,6 +207,21 @@ class VecInterp(Interp):
             if isinstance(base, tuple) and base[0] == "refval" and isinstance(base[1], list) and isinstance(v, list):
                 base[1][:] = v
                 return
+        if len(path) >= 2 and path[0] == "deref":
+            base = self.env.get(pl["l"])
+            if isinstance(base, tuple) and base and base[0] == "refval" and isinstance(base[1], dict):
+                # field write through a reference to a struct that lives in another frame
+                cur = base[1]
+                for pr in path[1:-1]:
+                    if isinstance(pr, dict) and "f" in pr and isinstance(cur, dict):
+                        cur = cur.setdefault(pr.get("n", pr["f"]), {})
+                    else:
+                        raise Undecidable("write through projection %r" % (pr,))
+                last = path[-1]
+                if isinstance(last, dict) and "f" in last and isinstance(cur, dict):
+                    cur[last.get("n", last["f"])] = v
+                    return
+                raise Undecidable("write through projection %r" % (last,))
         return Interp.assign(self, pl, v)
 
     # ------------------------------------------------------------ calls
